@@ -1,7 +1,187 @@
-(** C10 - placeholder obligations until PathsProofs lands. *)
-From Coq Require Import ZArith List.
-From V Require Import Base Perm PermProofs.
-Theorem C10_inverse_generator_undoes : forall (A : Type) (d : A) p (x : list A), Perm p -> length x = length p ->
-  apply_perm d (inverse_perm p) (apply_perm d p x) = x /\ apply_perm d p (apply_perm d (inverse_perm p) x) = x.
+(** C10 - Inverted and inverse-closed definitions are exact group-theoretic inverses. Statements only: every proof is [exact] of a lemma proved elsewhere.
+    Model: Def.v (inverse map with dict semantics, inverted generators, inverse closure, MatrixGenerator.inv with the float inverse as an oracle candidate).
+    MatrixMC.v bridges to MathComp's mulmx1C: in a commutative ring a right inverse of a square matrix is a left inverse.
+    (Statements are the lemmas' closed types as printed by Coq, hence the qualified names.) *)
+From V Require Import Base W64 Perm PermProofs Matrix Def DefProofs MatrixMC.
+
+(* the inverse permutation undoes the permutation on every sequence, both ways *)
+Theorem C10_inverse_perm_undoes :
+  forall (A : Type) (d : A) (p : list nat) (x : list A),
+         Perm p ->
+         length x = length p ->
+         apply_perm d (inverse_perm p) (apply_perm d p x) = x /\
+         apply_perm d p (apply_perm d (inverse_perm p) x) = x.
 Proof. exact @inverse_undoes. Qed.
-Print Assumptions C10_inverse_generator_undoes.
+Print Assumptions C10_inverse_perm_undoes.
+
+(* generator i of the inverted definition undoes generator i (permutations) *)
+Theorem C10_inverted_perms_undo :
+  forall (perms : list (list nat)) (i : nat) (x : list BinNums.Z),
+         i < length perms ->
+         Perm (List.nth i perms nil) ->
+         length x = length (List.nth i perms nil) ->
+         apply_perm BinNums.Z0 (List.nth i (inverted_perms perms) nil)
+           (apply_perm BinNums.Z0 (List.nth i perms nil) x) = x /\
+         apply_perm BinNums.Z0 (List.nth i perms nil)
+           (apply_perm BinNums.Z0 (List.nth i (inverted_perms perms) nil) x) = x.
+Proof. exact @inverted_perms_undo. Qed.
+Print Assumptions C10_inverted_perms_undo.
+
+(* the inverse map sends i to a position holding the inverse of generator i *)
+Theorem C10_perm_inverse_map_correct :
+  forall (perms : list (list nat)) (m : list nat),
+         perm_inverse_map perms = Some m ->
+         length m = length perms /\
+         (forall i : nat,
+          i < length perms ->
+          List.nth i m 0 < length perms /\
+          List.nth (List.nth i m 0) perms nil = inverse_perm (List.nth i perms nil)).
+Proof. exact @perm_inverse_map_correct. Qed.
+Print Assumptions C10_perm_inverse_map_correct.
+
+(* the map is None (flag false) exactly when some generator has no inverse in the list *)
+Theorem C10_perm_inverse_map_none :
+  forall perms : list (list nat),
+         perm_inverse_map perms = None <->
+         (exists p : list nat, List.In p perms /\ ~ List.In (inverse_perm p) perms).
+Proof. exact @perm_inverse_map_none. Qed.
+Print Assumptions C10_perm_inverse_map_none.
+
+(* generator i followed by generator map[i] is the identity *)
+Theorem C10_inverse_map_undoes :
+  forall (perms : list (list nat)) (m : list nat) (i : nat) (x : list BinNums.Z),
+         perm_inverse_map perms = Some m ->
+         i < length perms ->
+         Perm (List.nth i perms nil) ->
+         length x = length (List.nth i perms nil) ->
+         apply_perm BinNums.Z0 (List.nth (List.nth i m 0) perms nil)
+           (apply_perm BinNums.Z0 (List.nth i perms nil) x) = x.
+Proof. exact @inverse_map_undoes. Qed.
+Print Assumptions C10_inverse_map_undoes.
+
+(* make_inverse_closed keeps generators, names, order; appends exactly the missing inverses; the result is inverse closed; a closed input is returned unchanged *)
+Theorem C10_mic_perms_spec :
+  forall (perms : list (list nat)) (names : list String.string) (name : String.string),
+         List.Forall Perm perms ->
+         length names = length perms ->
+         let
+         '(mp, mn, mname) := mic_perms perms names name in
+          List.firstn (length perms) mp = perms /\
+          List.firstn (length perms) mn = names /\
+          length mn = length mp /\
+          List.skipn (length perms) mp =
+          List.map inverse_perm
+            (List.filter
+               (fun p0 : list nat => negb (List.existsb (nat_list_eqb (inverse_perm p0)) perms))
+               perms) /\
+          is_some (perm_inverse_map mp) = true /\
+          (is_some (perm_inverse_map perms) = true -> (mp, mn, mname) = (perms, names, name)).
+Proof. exact @mic_perms_spec. Qed.
+Print Assumptions C10_mic_perms_spec.
+
+(* make_inverse_closed is idempotent *)
+Theorem C10_mic_perms_idempotent :
+  forall (perms : list (list nat)) (names : list String.string) (name : String.string),
+         List.Forall Perm perms ->
+         length names = length perms ->
+         let
+         '(mp, mn, mname) := mic_perms perms names name in mic_perms mp mn mname = (mp, mn, mname).
+Proof. exact @mic_perms_idempotent. Qed.
+Print Assumptions C10_mic_perms_idempotent.
+
+(* MatrixGenerator.inv (modulo 0), for ANY oracle candidate: success means a TWO-sided inverse in int64 arithmetic *)
+Theorem C10_mat_inv_two_sided_mod0 :
+  forall (n : nat) (M cand M' : list (list BinNums.Z)),
+         mat_inv BinNums.Z0 n M cand = Ok M' ->
+         mat_mul BinNums.Z0 n M M' = eye n /\
+         mat_mul BinNums.Z0 n M' M = eye n /\ is_inverse_to BinNums.Z0 n M M' = true.
+Proof. exact @mat_inv_two_sided_mod0. Qed.
+Print Assumptions C10_mat_inv_two_sided_mod0.
+
+(* the same modulo m *)
+Theorem C10_mat_inv_two_sided_modular :
+  forall modulo : BinNums.Z,
+         BinInt.Z.le (BinNums.Zpos (BinNums.xO BinNums.xH)) modulo /\
+         BinInt.Z.le modulo
+           (BinInt.Z.pow (BinNums.Zpos (BinNums.xO BinNums.xH))
+              (BinNums.Zpos (BinNums.xI (BinNums.xI (BinNums.xI (BinNums.xI BinNums.xH)))))) ->
+         forall (n : nat) (M cand M' : list (list BinNums.Z)),
+         BinInt.Z.lt (BinInt.Z.of_nat n)
+           (BinInt.Z.pow (BinNums.Zpos (BinNums.xO BinNums.xH))
+              (BinNums.Zpos
+                 (BinNums.xO (BinNums.xO (BinNums.xO (BinNums.xO (BinNums.xO BinNums.xH))))))) ->
+         (forall r c0 : nat,
+          r < n ->
+          c0 < n -> BinInt.Z.le BinNums.Z0 (mentry M r c0) /\ BinInt.Z.lt (mentry M r c0) modulo) ->
+         (forall r c0 : nat,
+          r < n ->
+          c0 < n ->
+          BinInt.Z.le
+            (BinInt.Z.opp
+               (BinInt.Z.pow (BinNums.Zpos (BinNums.xO BinNums.xH))
+                  (BinNums.Zpos (BinNums.xI (BinNums.xI (BinNums.xI (BinNums.xI BinNums.xH)))))))
+            (mentry cand r c0) /\
+          BinInt.Z.le (mentry cand r c0)
+            (BinInt.Z.pow (BinNums.Zpos (BinNums.xO BinNums.xH))
+               (BinNums.Zpos (BinNums.xI (BinNums.xI (BinNums.xI (BinNums.xI BinNums.xH))))))) ->
+         mat_inv modulo n M cand = Ok M' ->
+         mat_mul modulo n M M' = eye n /\
+         mat_mul modulo n M' M = eye n /\ is_inverse_to modulo n M M' = true.
+Proof. exact @mat_inv_two_sided_modular. Qed.
+Print Assumptions C10_mat_inv_two_sided_modular.
+
+(* the inverted matrix generator undoes the generator on every state (modulo 0) *)
+Theorem C10_mat_inv_undoes_mod0 :
+  forall (n m : nat) (M cand M' : list (list BinNums.Z)) (S : list BinNums.Z),
+         mat_inv BinNums.Z0 n M cand = Ok M' ->
+         length S = n * m ->
+         (forall idx : nat, idx < ssrnat.muln n m -> in64 (List.nth idx S BinNums.Z0)) ->
+         mat_apply BinNums.Z0 n m M' (mat_apply BinNums.Z0 n m M S) = S /\
+         mat_apply BinNums.Z0 n m M (mat_apply BinNums.Z0 n m M' S) = S.
+Proof. exact @mat_inv_undoes_mod0. Qed.
+Print Assumptions C10_mat_inv_undoes_mod0.
+
+(* the same modulo m, on reduced states *)
+Theorem C10_mat_inv_undoes_modular :
+  forall modulo : BinNums.Z,
+         BinInt.Z.le (BinNums.Zpos (BinNums.xO BinNums.xH)) modulo /\
+         BinInt.Z.le modulo
+           (BinInt.Z.pow (BinNums.Zpos (BinNums.xO BinNums.xH))
+              (BinNums.Zpos (BinNums.xI (BinNums.xI (BinNums.xI (BinNums.xI BinNums.xH)))))) ->
+         forall (n m : nat) (M cand M' : list (list BinNums.Z)) (S : list BinNums.Z),
+         BinInt.Z.lt (BinInt.Z.of_nat n)
+           (BinInt.Z.pow (BinNums.Zpos (BinNums.xO BinNums.xH))
+              (BinNums.Zpos
+                 (BinNums.xO (BinNums.xO (BinNums.xO (BinNums.xO (BinNums.xO BinNums.xH))))))) ->
+         (forall r c0 : nat,
+          r < n ->
+          c0 < n -> BinInt.Z.le BinNums.Z0 (mentry M r c0) /\ BinInt.Z.lt (mentry M r c0) modulo) ->
+         (forall r c0 : nat,
+          r < n ->
+          c0 < n ->
+          BinInt.Z.le
+            (BinInt.Z.opp
+               (BinInt.Z.pow (BinNums.Zpos (BinNums.xO BinNums.xH))
+                  (BinNums.Zpos (BinNums.xI (BinNums.xI (BinNums.xI (BinNums.xI BinNums.xH)))))))
+            (mentry cand r c0) /\
+          BinInt.Z.le (mentry cand r c0)
+            (BinInt.Z.pow (BinNums.Zpos (BinNums.xO BinNums.xH))
+               (BinNums.Zpos (BinNums.xI (BinNums.xI (BinNums.xI (BinNums.xI BinNums.xH))))))) ->
+         mat_inv modulo n M cand = Ok M' ->
+         length S = n * m ->
+         (forall j : nat,
+          j < ssrnat.muln n m ->
+          BinInt.Z.le BinNums.Z0 (List.nth j S BinNums.Z0) /\
+          BinInt.Z.lt (List.nth j S BinNums.Z0) modulo) ->
+         mat_apply modulo n m M' (mat_apply modulo n m M S) = S /\
+         mat_apply modulo n m M (mat_apply modulo n m M' S) = S.
+Proof. exact @mat_inv_undoes_modular. Qed.
+Print Assumptions C10_mat_inv_undoes_modular.
+
+(* a candidate that is not a right inverse is rejected with the library's assertion *)
+Theorem C10_mat_inv_rejects :
+  forall (modulo : BinNums.Z) (n : nat) (M cand : list (list BinNums.Z)),
+         mat_eqb (mat_mul modulo n M cand) (eye n) = false ->
+         mat_inv modulo n M cand = Err AssertionErr.
+Proof. exact @mat_inv_rejects. Qed.
+Print Assumptions C10_mat_inv_rejects.
